@@ -142,6 +142,18 @@ W = [
     ("{T}, _u = 1, 'a'", 0),
     ("{T} = _v = [None]", 0),
     ("{T} = 1\ndel {T}", 0),
+    # equal-valued constants of different types (nested, so that only the inner element types differ)
+    ("{T} = ((1, 2),)", 1),
+    ("{T} = ((1.0, 2.0),)", 1),
+    ("{T} = (1, 2.0)", 0),
+    ("{T} = (1.0, 2)", 0),
+    ("{T} = [(True, 0), (1, False)]", 0),
+    ("{T} = {{'k': (1, 2)}}", 0),
+    ("{T} = {{'k': (1.0, 2.0)}}", 0),
+    # an attribute set back to an earlier value between calls of a method that reads it
+    ("_o = A(1)\n_r1 = _o.m()\n_o.v = 'late'\n{T} = _o.m()\n_o.v = 1\n_r3 = _o.m()", 0),
+    # a global set back to an earlier value between calls of a function that reads it
+    ("_g = 1\ndef _mk():\n  return _g\n_q1 = _mk()\n_g = b'changed'\n{T} = _mk()\n_g = 1\n_q3 = _mk()", 0),
 ]
 
 # R templates read S (and write T).
@@ -183,6 +195,19 @@ R = [
     ("{T} = [{S}] if c0 else ({S},)", 0),
     ("{T} = {S}\n{S} = 'reassigned'", 0),
     ("del {S}\n{T} = 1", 0),
+    # in-place mutation of a container whose contents pytype knows, then a constant subscript
+    ("try:\n  {S}.reverse()\n  {T} = {S}[0]\nexcept (AttributeError, TypeError, IndexError, KeyError):\n  {T} = None", 1),
+    ("try:\n  {S}.pop()\n  {T} = {S}[-1]\nexcept (AttributeError, TypeError, IndexError, KeyError):\n  {T} = None", 0),
+    ("try:\n  {S}.insert(0, None)\n  {T} = {S}[1]\nexcept (AttributeError, TypeError, IndexError, KeyError):\n  {T} = None", 0),
+    ("try:\n  {S}.remove(1)\n  {T} = {S}[0]\nexcept (AttributeError, TypeError, IndexError, KeyError, ValueError):\n  {T} = None", 0),
+    ("try:\n  {S}.sort(key=str)\n  {T} = {S}[0]\nexcept (AttributeError, TypeError, IndexError, KeyError):\n  {T} = None", 0),
+    ("try:\n  {S}.extend(['z'])\n  {T} = {S}[-1]\nexcept (AttributeError, TypeError, IndexError, KeyError):\n  {T} = None", 0),
+    ("try:\n  {S}[0] = None\n  {T} = {S}[0]\nexcept (AttributeError, TypeError, IndexError, KeyError):\n  {T} = 0", 0),
+    ("try:\n  del {S}[0]\n  {T} = {S}[0]\nexcept (AttributeError, TypeError, IndexError, KeyError):\n  {T} = None", 0),
+    ("try:\n  {S} += [None]\n  {T} = {S}[-1]\nexcept (AttributeError, TypeError, IndexError, KeyError):\n  {T} = 0", 0),
+    ("try:\n  {S}.update({{'k': 'v'}})\n  {T} = {S}['k']\nexcept (AttributeError, TypeError, IndexError, KeyError, ValueError):\n  {T} = None", 0),
+    ("try:\n  {S}.pop('k')\n  {T} = {S}.get('k')\nexcept (AttributeError, TypeError, IndexError, KeyError):\n  {T} = 0", 0),
+    ("try:\n  {S}.clear()\n  {T} = {S}\nexcept (AttributeError, TypeError):\n  {T} = None", 0),
 ]
 
 
